@@ -1,14 +1,63 @@
 (* C03 — Every operation logs in first and binds its commands to that login's session *)
-Require Import AS.Base.Prelude AS.Base.Hex AS.Base.Dec AS.Base.Template AS.Base.Exchange AS.Gen.Extracted AS.Model.DeviceTools AS.Model.Messages AS.Model.Remotes AS.Model.Api AS.Proofs.ApiProofs.
-
-(* partial (one operation): for every script of device replies the type-1 state query writes the login frame first, nothing else on an empty login reply, and exactly one command frame otherwise *)
+Require Import AS.Base.Prelude AS.Base.Hex AS.Base.Template AS.Base.Exchange AS.Gen.Extracted AS.Spec.Frame AS.Spec.FrameLayout
+  AS.Spec.FrameSpec AS.Model.DeviceTools AS.Model.Messages AS.Model.Remotes AS.Model.Api AS.Model.Ops
+  AS.Proofs.ApiProofs AS.Proofs.SpecOps AS.Proofs.HeaderFields.
 Local Open Scope N_scope.
-Theorem C03_get_state_frames_partial c now script : wf_cfg c -> now < 4294967296 -> script_wf script ->
+
+(* 1. The exchange model keeps nothing between operations: an operation is a function of the configuration, its own
+   clock reading, its own arguments and the replies it reads (Model/Ops.v run_op has no other input), so no session id,
+   clock reading or device identity of one operation or instance can reach another.  That the Python classes behave like
+   this model under sequences and interleavings is what the correspondence streams of the check test. *)
+Theorem C03_operations_are_independent c now o script1 script2 :
+  script1 = script2 -> Exchange.run (run_op c now o) script1 = Exchange.run (run_op c now o) script2.
+Proof. intros ->. reflexivity. Qed.
+Print Assumptions C03_operations_are_independent.
+
+(* 2. Shape of one operation, for every script of device replies: the login frame first; nothing else after an empty
+   login reply; exactly one command frame otherwise (type-1 state query; the other operations: theorems of C02, whose
+   conclusion gives the exact frame list [login frame; command frame]) *)
+Theorem C03_get_state_frames c now script : wf_cfg c -> now < 4294967296 -> script_wf script ->
   let '(fs, r) := Exchange.run (get_state c now) script in
   ((exists v, r = Ok v) \/ r = Exc RuntimeError) /\
   (hd [] script = [] -> length fs = 1%nat /\ r = Exc RuntimeError) /\
   (hd [] script <> [] -> length fs = 2%nat).
 Proof. exact (get_state_exchange c now script). Qed.
-Print Assumptions C03_get_state_frames_partial.
-Local Close Scope N_scope.
+Print Assumptions C03_get_state_frames.
 
+(* 3. The login frame of the Spec carries a zero session, this operation's timestamp and the credential: the login key
+   for type 1 (byte 40), the device id for type 2 (bytes 40-42) *)
+Theorem C03_login_frame_type1 keyb now LF : keyb < 256 -> spec_login false [] [keyb] now = Frame LF ->
+  pyslice 8 12 LF = [0; 0; 0; 0] /\ pyslice 24 28 LF = le32 now /\ pyslice 40 41 LF = [keyb].
+Proof.
+  intros Hk H. apply (login_frame_fields 82 T1 [161; 0] [52; 0] [keyb] (zeros 37) now); try reflexivity;
+    try (repeat constructor; fail); try exact H; try (apply zeros_b).
+  constructor; [exact Hk|constructor].
+Qed.
+Print Assumptions C03_login_frame_type1.
+Theorem C03_login_frame_type2 idb now LF : length idb = 3%nat -> Forall (fun b => b < 256) idb ->
+  spec_login true idb [] now = Frame LF ->
+  pyslice 8 12 LF = [0; 0; 0; 0] /\ pyslice 24 28 LF = le32 now /\ pyslice 40 43 LF = idb.
+Proof.
+  intros Hl Hb H.
+  destruct (login_frame_fields 48 T2 [166; 0] [255; 3] idb [0] now eq_refl eq_refl eq_refl) with (LF := LF) as [A [B C]];
+    try (repeat constructor; fail); try exact Hb; try exact H.
+  rewrite Hl in C. auto.
+Qed.
+Print Assumptions C03_login_frame_type2.
+
+(* 4. Every command frame of the Spec (any layout that starts with the 40-byte header and the device id) carries at
+   bytes 8-11 the session bytes it was built from, at 24-27 the timestamp and at 40-42 the device id.  With C02's
+   theorems (frames = [login frame; frame_of L (hdr_args (bytes 8-11 of THIS login's reply) now id ++ ...)]) this is:
+   commands are bound to the session returned in that very login reply, to this operation's clock reading and to the
+   configured device *)
+Theorem C03_command_frame_fields len proto cmd sub sess idb now restL args CF :
+  length proto = 2%nat -> length cmd = 2%nat -> length sub = 2%nat -> length sess = 4%nat -> length idb = 3%nat ->
+  Forall (fun b => b < 256) proto -> Forall (fun b => b < 256) cmd -> Forall (fun b => b < 256) sub ->
+  Forall (fun b => b < 256) sess -> Forall (fun b => b < 256) idb ->
+  frame_of (header len proto cmd sub ++ SA 2 :: restL) (hdr_args sess now idb ++ args) = Frame CF ->
+  pyslice 8 12 CF = sess /\ pyslice 24 28 CF = le32 now /\ pyslice 40 43 CF = idb.
+Proof. intros. eapply (frame_fields len proto cmd sub sess idb now restL args); eassumption. Qed.
+Print Assumptions C03_command_frame_fields.
+
+(* 5. Thermostat control writes between one and four frames; with nothing actionable or an empty login reply only the
+   login frame (C16's theorems); its frames are well formed (C01) *)
